@@ -185,6 +185,27 @@ func isFreshBase(v ssa.Value, p *Program, depth int) bool {
 			}
 		}
 		return len(x.Edges) > 0
+	case *ssa.Extract:
+		// first result of a constructor that also returns an error
+		if call, ok := x.Tuple.(*ssa.Call); ok && x.Index == 0 {
+			if sc := call.Call.StaticCallee(); sc != nil && sc.Blocks != nil && isPikeFunc(sc) {
+				all, any := true, false
+				for _, b := range sc.Blocks {
+					for _, in := range b.Instrs {
+						if r, ok := in.(*ssa.Return); ok && len(r.Results) > 0 {
+							if cst, isC := r.Results[0].(*ssa.Const); isC && cst.Value == nil {
+								continue // nil, err
+							}
+							any = true
+							if !isFreshBase(r.Results[0], p, depth+1) {
+								all = false
+							}
+						}
+					}
+				}
+				return any && all
+			}
+		}
 	}
 	return false
 }
